@@ -3,6 +3,7 @@
    error drain, the caller of startScanEngine) over Base/Net.v.  Every theorem holds for every
    worker count W, request list, Scan outcome function, request-channel capacity and schedule. *)
 From stdpp Require Import gmultiset list.
+From SX Require Model.AppWiringShape.
 From SX Require Import Base.Net Base.NetExec Model.AppEngine Model.AppEngineShape
                        Proofs.AppEngineProofs Proofs.AppEngineOrder Proofs.AppEngineScans.
 
@@ -67,6 +68,13 @@ Proof. exact engine_no_panic. Qed.
 Theorem C08_shape : shape_ok = true.
 Proof. vm_compute. reflexivity. Qed.
 
+(* the worker count W of the model is the --workers option (validated > 0 by the option parser; the harness
+   runs the engine built from the real option parsing): the statements that carry it from the option struct to
+   the engine (genericScanCmdOpts.newScanEngine, scan.WithScanWorkerCount, scan.NewScanEngine; Gen/StmtShapes.v,
+   regenerated on every run) are the pinned ones *)
+Theorem C08_wiring_shape : AppWiringShape.shape_ok = true.
+Proof. vm_compute. reflexivity. Qed.
+
 (* ---- non-vacuity: 3 workers, 6 requests (one carries an error, two positive, one failing) ---- *)
 (* scheduling policy of the example run: the request source's input never stalls *)
 Definition no_stall (l : loc) : bool := match l with Src _ => true | _ => false end.
@@ -91,3 +99,4 @@ Print Assumptions C08_printed_if_drained.
 Print Assumptions C08_errors_once.
 Print Assumptions C08_no_panic.
 Print Assumptions C08_shape.
+Print Assumptions C08_wiring_shape.
